@@ -11,8 +11,8 @@ The model follows the Go code as it is, including:
   as a deletion);
 * `applyChangeSet` stops at the first error and leaves the manifest partially modified
   (`addChanges` then returns the error without writing);
-* the length sanity check of `ReplayManifestFile` compares the frame length with
-  `uint32(file size)` *before* trying to read the payload.
+* `ReplayManifestFile` compares the frame length with the number of bytes left in the file
+  before it allocates the payload buffer; a longer record is a torn tail (fix of finding F16).
 
 The protobuf payload encoding, the CRC and the Go map iteration order used by `asChanges` are
 parameters (`Codec`); `BadgerModel/ManifestPb.lean` and `BadgerModel/Crc.lean` provide the
@@ -166,7 +166,6 @@ inductive ReplayErr where
   | badMagic
   | unsupportedVersion (v : Nat)
   | extMagicMismatch
-  | lenExceedsFile           -- "Buffer length: %d greater than file size: %d"
   | badChecksum
   | decode                   -- proto.Unmarshal error
   | apply (e : ManifestErr)
@@ -181,27 +180,28 @@ instance : DecidableEq ReplayResult := fun a b =>
   | .ok _, .error _ => isFalse (fun h => by cases h)
   | .error _, .ok _ => isFalse (fun h => by cases h)
 
-/-- The `for` loop of `ReplayManifestFile` on the unread rest of the file.
-    `fsize` is `stat.Size()`, `off` the reader's count, `fuel ≥ rest.length` suffices. -/
-def replayLoop (cd : Codec) (fsize : Nat) : Nat → Bytes → Nat → Manifest → ReplayResult
+/-- The `for` loop of `ReplayManifestFile` on the unread rest of the file (`rest.length` is
+    `stat.Size() - r.count`), `off` the reader's count, `fuel ≥ rest.length` suffices.
+    A record whose length field exceeds what is left of the file is a torn append: the loop stops
+    (since the fix of finding F16; before, `length > uint32(stat.Size())` was a hard error and
+    only lengths between the rest of the file and the file size ended in the short read). -/
+def replayLoop (cd : Codec) : Nat → Bytes → Nat → Manifest → ReplayResult
   | 0, _, off, build => .ok (build, off)
   | fuel + 1, rest, off, build =>
     if rest.length < 8 then .ok (build, off)            -- EOF / UnexpectedEOF on lenCrcBuf
     else
       let length := beNat (rest.take 4)
-      if length > fsize % 2 ^ 32 then .error .lenExceedsFile
+      let body := rest.drop 8
+      if body.length < length then .ok (build, off)     -- int64(length) > stat.Size() - r.count
       else
-        let body := rest.drop 8
-        if body.length < length then .ok (build, off)   -- EOF / UnexpectedEOF on the payload
-        else
-          let buf := body.take length
-          if cd.crc buf ≠ beNat ((rest.drop 4).take 4) then .error .badChecksum
-          else match cd.dec buf with
-            | none => .error .decode
-            | some cs =>
-              match applyChangeSet build cs with
-              | (_, some e) => .error (.apply e)
-              | (build', none) => replayLoop cd fsize fuel (body.drop length) (off + 8 + length) build'
+        let buf := body.take length
+        if cd.crc buf ≠ beNat ((rest.drop 4).take 4) then .error .badChecksum
+        else match cd.dec buf with
+          | none => .error .decode
+          | some cs =>
+            match applyChangeSet build cs with
+            | (_, some e) => .error (.apply e)
+            | (build', none) => replayLoop cd fuel (body.drop length) (off + 8 + length) build'
 
 /-- `ReplayManifestFile(fp, extMagic)`: the manifest and the truncation offset. -/
 def replay (cd : Codec) (file : Bytes) (ext : Nat) : ReplayResult :=
@@ -212,7 +212,7 @@ def replay (cd : Codec) (file : Bytes) (ext : Nat) : ReplayResult :=
     let version := beNat ((file.drop 6).take 2)
     if version ≠ badgerMagicVersion then .error (.unsupportedVersion version)
     else if extVersion ≠ ext % 2 ^ 16 then .error .extMagicMismatch
-    else replayLoop cd file.length file.length (file.drop 8) 8 Manifest.empty
+    else replayLoop cd file.length (file.drop 8) 8 Manifest.empty
 
 /-! ## `manifestFile` -/
 
